@@ -23,7 +23,9 @@ PROPS = {
               'the result is Err exactly when the tree contains (at any depth, incl. dead branches and format strings) one of the '
               'documented unsupported tests/actions/format fields/options, the error kind names such a construct, and every other '
               'parser-shaped tree compiles. All trees, unbounded depth.',
-        not_decided=['the text of the error message (format!("{:?}") is opaque)',
+        not_decided=['which node a keyword and its argument parse to (keyword table: winnow combinators) — covered only by the BOUNDED stand-in BOUNDED.parse_refusal '
+                     '(every unsupported primary with 18 argument spellings in 5 shapes; labelled bounded, not counted as proved)',
+                     'the text of the error message (format!("{:?}") is opaque)',
                      'std iterator plumbing inside <Vec<FormatElement>>::compile (map/collect::<Result>, filter_map/collect, join) is hoisted and '
                      'assumed to apply the verified closures to every element in order (ASSUME.iter_*)',
                      'that the parser only returns trees without Global/Precedence nodes (front end)'],
